@@ -268,6 +268,74 @@ class Boom(Exception):
     pass
 
 
+class Unprintable(Exception):
+    """an exception whose text cannot be produced (a remote error wrapper with a broken __str__)"""
+
+    def __str__(self):
+        raise RuntimeError("this exception has no text")
+
+
+class Unreprable(Unprintable):
+    def __repr__(self):
+        raise RuntimeError("nor a repr")
+
+
+EXC_CLASSES = ["unprintable", "unreprable", "ValueError", "KeyError", "OSError", "TimeoutError", "ConnectionResetError",
+               "StopAsyncIteration", "ExceptionGroup", "ExceptionGroup-cancel-scope", "ExceptionGroup-unprintable",
+               "BaseExceptionGroup", "str-subclass-args", "bytes-args"]
+
+
+def make_exception(kind):
+    """what the body of the context may raise: every class the wrappers look at, format or filter"""
+    if kind == "unprintable":
+        return Unprintable("x")
+    if kind == "unreprable":
+        return Unreprable("x")
+    if kind == "OSError":
+        return OSError(5, "I/O error %s {0}")
+    if kind == "ExceptionGroup":
+        return ExceptionGroup("several things", [ValueError("one"), KeyError("two")])
+    if kind == "ExceptionGroup-cancel-scope":
+        return ExceptionGroup("g", [RuntimeError("Attempted to exit a cancel scope that isn't the current one")])
+    if kind == "ExceptionGroup-unprintable":
+        return ExceptionGroup("g", [Unprintable("x")])
+    if kind == "BaseExceptionGroup":
+        return BaseExceptionGroup("g", [Unprintable("x"), ValueError("y")])
+    if kind == "str-subclass-args":
+        class S(str):
+            def __str__(self):
+                raise RuntimeError("no text")
+        return ValueError(S("x"))
+    if kind == "bytes-args":
+        return ValueError(b"\xff\xfe", 0, None)
+    return {"ValueError": ValueError, "KeyError": KeyError, "TimeoutError": TimeoutError,
+            "ConnectionResetError": ConnectionResetError, "StopAsyncIteration": StopAsyncIteration}[kind]("body failed: %s %d {0}")
+
+
+@contextlib.contextmanager
+def host_logging(case):
+    """`logging: "debug"`: the host has logging at DEBUG with a handler that FORMATS each record (see config_h)"""
+    import logging
+
+    if case.get("logging") != "debug":
+        yield
+        return
+    from .config_h import FormattingHandler
+    root = logging.getLogger()
+    saved = (root.level, logging.root.manager.disable)
+    h = FormattingHandler()
+    h.setFormatter(logging.Formatter("%(asctime)s %(name)s %(levelname)s %(message)s"))
+    logging.disable(logging.NOTSET)
+    root.addHandler(h)
+    root.setLevel(logging.DEBUG)
+    try:
+        yield
+    finally:
+        root.removeHandler(h)
+        root.setLevel(saved[0])
+        logging.disable(saved[1])
+
+
 CHILD_KEYS = ("k", "code", "junk", "delay", "linger", "close_after", "term_delay", "stderr", "chatty", "falsy_result",
               "on_term", "self_exit", "stderr_flood")
 
@@ -453,6 +521,8 @@ async def _scenario(case, tmp, obs):
             await anyio.sleep_forever()
         clock["exit"] = time.monotonic()
         if path == "exception":
+            if case.get("exc_class"):
+                raise make_exception(case["exc_class"])
             if case.get("exc_text") == "noargs":
                 raise Boom()
             raise Boom(EXC_TEXTS[case.get("exc_text", "plain")])
@@ -550,7 +620,7 @@ async def _scenario(case, tmp, obs):
                 await anyio.sleep_forever()
             clock["exit"] = time.monotonic()
             if path == "exception":
-                raise Boom("exception in body")
+                raise make_exception(case["exc_class"]) if case.get("exc_class") else Boom("exception in body")
 
     @contextlib.asynccontextmanager
     async def _noctx():
@@ -685,10 +755,12 @@ def run_case(case):
         with open(os.path.join(tmp, "child.py"), "w") as f:
             f.write(CHILD)
         if case.get("bad") is not None:
-            _run_bad(case, tmp, obs)
+            with host_logging(case):
+                _run_bad(case, tmp, obs)
         else:
             try:
-                anyio.run(_scenario, case, tmp, obs)
+                with host_logging(case):
+                    anyio.run(_scenario, case, tmp, obs)
             except BaseException as ex:  # noqa: BLE001
                 obs["harness_error"] = f"{type(ex).__name__}: {ex}"[:300]
     finally:
@@ -721,27 +793,37 @@ def _run_bad(case, tmp, obs):
     async def main():
         params = StdioParameters(command=cmd, args=["x"])
         fd0 = nfds()
-        try:
-            with anyio.fail_after(SCENARIO_TIMEOUT_S):
-                if api == "StdioTransport":
-                    from chuk_mcp.transports.stdio.transport import StdioTransport
-                    async with StdioTransport(params):
-                        obs["entered"] = True
-                elif api == "StdioClient":
-                    from chuk_mcp.transports.stdio.stdio_client import StdioClient
-                    async with StdioClient(params):
-                        obs["entered"] = True
+        obj = None
+        obs["attempts"] = []
+        # `attempts` > 1: the SAME object is entered again after the failed start (a host that retries)
+        for _ in range(case.get("attempts", 1)):
+            entered_now = False
+            try:
+                with anyio.fail_after(SCENARIO_TIMEOUT_S):
+                    if api == "StdioTransport":
+                        from chuk_mcp.transports.stdio.transport import StdioTransport
+                        obj = obj or StdioTransport(params)
+                        async with obj:
+                            entered_now = obs["entered"] = True
+                    elif api == "StdioClient":
+                        from chuk_mcp.transports.stdio.stdio_client import StdioClient
+                        obj = obj or StdioClient(params)
+                        async with obj:
+                            entered_now = obs["entered"] = True
+                    else:
+                        from chuk_mcp.transports.stdio.stdio_client import stdio_client
+                        async with stdio_client(params):
+                            entered_now = obs["entered"] = True
+                obs["attempts"].append("entered")
+            except TimeoutError:
+                obs["hang"] = True
+                obs["attempts"].append("hang")
+            except BaseException as ex:  # noqa: BLE001
+                obs["attempts"].append("entered-then-" + type(ex).__name__ if entered_now else "raised")
+                if not entered_now:
+                    obs["enter_exc"] = type(ex).__name__
                 else:
-                    from chuk_mcp.transports.stdio.stdio_client import stdio_client
-                    async with stdio_client(params):
-                        obs["entered"] = True
-        except TimeoutError:
-            obs["hang"] = True
-        except BaseException as ex:  # noqa: BLE001
-            if not obs["entered"]:
-                obs["enter_exc"] = type(ex).__name__
-            else:
-                obs["exit_exc"] = type(ex).__name__
+                    obs["exit_exc"] = type(ex).__name__
         await anyio.sleep(0.05)
         running, _z = scan(tmp, os.getpid())
         obs["state"] = "running" if running else "gone"
